@@ -2789,7 +2789,170 @@ def check_c12(ctx):
     return rep.finish()
 
 
+# ------------------------------------------------------------------------------ C08 / C09 static semantics
+def analyzer_stage(ctx, rep, want_gen=False):
+    descs = kit.build(ctx.tier) + kit.schema_descs(ctx.tier)
+    dp = os.path.join(ctx.tmp, "adescs.ndjson")
+    write_ndjson(dp, descs)
+    lines, stats = tlc("MC_Analyzer", "MC_Analyzer.cfg", dict(DESCS=dp), tag="an")
+    rep.tlc_stats(stats)
+    recs = parse_tagged(lines, "AN")
+    reqs = []
+    for i, r in enumerate(recs):
+        r["rid"] = i
+        r["base"] = descs[r["job"] - 1]
+        r["d"]["name"] = r["base"]["name"]
+        r["src"] = pdl.render(r["d"])
+        want = ["analyze"]
+        if want_gen and r["k"] in ("group", "base"):
+            want += ["rust", "python", "cxx"]
+        reqs.append(dict(rid=i, name=r["base"]["name"] + ".pdl", src=r["src"], want=want))
+    res = run_driver(ctx.driver(), reqs, tag="an")
+    for r in recs:
+        r["resp"] = res.get(r["rid"], {})
+    return descs, recs
+
+
+def impl_codes(a):
+    return sorted({int(d["code"][1:]) for d in a.get("diags", []) if d.get("code")})
+
+
+def check_c08(ctx):
+    rep = Report("C08", ctx.tier, ctx.seed)
+    descs, recs = analyzer_stage(ctx, rep)
+    per_rule = {}
+    for r in recs:
+        if r["k"] not in ("edit", "ok"):
+            continue
+        rep.validated()
+        resp = r["resp"]
+        a = resp.get("analyze", {})
+        p = resp.get("parse", {})
+        name = r["base"]["name"]
+        site = "/".join(str(x).strip('"') for x in r["site"])
+
+        def viol(kind, detail):
+            rep.violation("C08|analyzer|%s|E%d@%s|%s" % (name, r["rule"], site, kind),
+                          {"desc": r["d"], "pdl": r["src"], "edit": {"rule": "E%d" % r["rule"], "site": r["site"]},
+                           "expected": {"accepted": r["accepted"], "first_failing_pass": r["pass"], "codes": r["codes"]},
+                           "observed": detail})
+        if "ok" not in p:
+            viol("edited_text_does_not_parse", p)
+            continue
+        if "panic" in a or "timeout" in resp or "abnormal" in resp:
+            viol("analyzer_abnormal:" + norm_msg(a.get("panic", "")), a)
+            continue
+        if r["k"] == "ok":
+            if "ok" not in a:
+                viol("rejects_boundary_legal:" + ",".join("E%d" % c for c in impl_codes(a)), a)
+            continue
+        per_rule[r["rule"]] = per_rule.get(r["rule"], 0) + 1
+        if "ok" in a:
+            viol("accepts_ill_formed", {"accepted": True})
+            continue
+        got = impl_codes(a)
+        first = r["pass"]
+        rulepass = {1: 0, 11: 2, 38: 7, 39: 8, 51: 12}.get(r["rule"])
+        if r["rule"] in r["codes"] and r["rule"] not in got:
+            viol("missing_code:got_" + ",".join("E%d" % c for c in got), a)
+        elif not set(got) <= set(r["codes"]):
+            viol("unexpected_code:" + ",".join("E%d" % c for c in sorted(set(got) - set(r["codes"]))), a)
+        n = a.get("source_len", 0)
+        for dg in a.get("diags", []):
+            for lb in dg.get("labels", []):
+                if not (0 <= lb["start"] <= lb["end"] <= n):
+                    viol("label_outside_file", dg)
+        if a.get("emit") != "ok":
+            viol("diagnostic_does_not_render", a.get("emit"))
+        if rep.coverage["traces_validated_against_impl"] % 797 == 1:
+            rep.sample({"base": name, "rule": "E%d" % r["rule"], "site": r["site"], "expected_codes": r["codes"], "reported": got})
+    rep.notes["edits_per_rule"] = {"E%d" % k: v for k, v in sorted(per_rule.items())}
+    rep.notes["rules_exercised"] = len(per_rule)
+    rep.assumptions += ["rule predicates and the pass order are spec/PdlAnalyzer.tla; an edited description must be rejected, "
+                        "with the edit's code whenever no earlier pass is violated, and only with codes of the first violated pass",
+                        "E9/E10 (test declarations are dropped by the parser) and checksum rules (stub) are not obligations"]
+    return rep.finish()
+
+
+def decl_set(d):
+    x = json.loads(json.dumps(d))
+    return sorted(json.dumps(y, sort_keys=True) for y in x["decls"])
+
+
+def check_c09(ctx):
+    rep = Report("C09", ctx.tier, ctx.seed)
+    descs, recs = analyzer_stage(ctx, rep, want_gen=True)
+    base_resp = {r["job"]: r for r in recs if r["k"] == "base"}
+    for r in recs:
+        if r["k"] not in ("base", "perm", "group"):
+            continue
+        rep.validated()
+        a = r["resp"].get("analyze", {})
+        name = r["base"]["name"]
+
+        def viol(kind, detail):
+            rep.violation("C09|analyzer|%s|%s|%s" % (name, r["k"], kind),
+                          {"desc": r["d"], "pdl": r["src"], "variant": r["k"], "observed": detail,
+                           "expected": {"accepted": True}})
+        if "ok" not in a:
+            viol("rejects_well_formed:" + ",".join("E%d" % c for c in impl_codes(a)) + norm_msg(a.get("panic", "")), a)
+            continue
+        try:
+            got = pdl.ast_to_desc(a["ok"])
+        except Exception as e:  # noqa
+            viol("analyzed_unmappable", repr(e))
+            continue
+        if decl_set(got) != decl_set(r["analyzed"]):
+            viol("analyzed_declarations_differ", {"analyzed": got, "expected": r["analyzed"]})
+            continue
+        if r["k"] == "group":
+            b = base_resp.get(r["job"])
+            for be in ("rust", "python", "cxx"):
+                ga, gb = r["resp"].get(be, {}), (b["resp"].get(be, {}) if b else {})
+                if "ok" in ga and "ok" in gb:
+                    if ga["ok"] != gb["ok"]:
+                        viol("generated_%s_differs_from_inlined_form" % be, {"grouped_sha": sha(ga["ok"]), "inlined_sha": sha(gb["ok"])})
+                elif ("ok" in ga) != ("ok" in gb):
+                    viol("generation_outcome_differs_%s" % be, {"grouped": json.dumps(ga)[:200], "inlined": json.dumps(gb)[:200]})
+        if rep.coverage["traces_validated_against_impl"] % 397 == 1:
+            rep.sample({"base": name, "variant": r["k"], "pdl": r["src"][:300]})
+    # layout / radix: token-level re-layouts of the base descriptions must be accepted too
+    dp = os.path.join(ctx.tmp, "ldescs.ndjson")
+    write_ndjson(dp, descs)
+    n = 60 if ctx.tier == "quick" else 1500
+    lines, stats = tlc("MC_Syntax", "MC_Syntax.cfg", dict(DESCS=dp, ALLOW0X="1", NEARMISS="0"), workers=1,
+                       simulate="num=%d" % n, extra=["-depth", "4000", "-seed", str(ctx.seed + 1)], tag="c09syn", timeout=3000)
+    rep.tlc_stats(stats)
+    seen, srcs = set(), []
+    for x in parse_tagged(lines, "SRC"):
+        if (x["job"], x["text"]) not in seen:
+            seen.add((x["job"], x["text"]))
+            srcs.append(x)
+    reqs = [dict(rid=i, name=descs[x["job"] - 1]["name"] + ".pdl", src=x["text"], want=["analyze"]) for i, x in enumerate(srcs)]
+    res = run_driver(ctx.driver(), reqs, tag="c09l")
+    for i, x in enumerate(srcs):
+        rep.validated()
+        a = res.get(i, {}).get("analyze", {})
+        b = base_resp.get(x["job"])
+        if b is None:
+            continue
+        ba = b["resp"].get("analyze", {})
+        same = ("ok" in a) == ("ok" in ba) and impl_codes(a) == impl_codes(ba)
+        if same and "ok" in a:
+            same = decl_set(pdl.ast_to_desc(a["ok"])) == decl_set(pdl.ast_to_desc(ba["ok"]))
+        if not same:
+            rep.violation("C09|analyzer|%s|layout|verdict_depends_on_layout" % descs[x["job"] - 1]["name"],
+                          {"desc": descs[x["job"] - 1], "pdl": x["text"], "observed": {"relayout": json.dumps(a)[:300], "canonical": json.dumps(ba)[:300]}})
+    rep.notes["relayouts"] = len(srcs)
+    rep.notes["variants"] = {k: sum(1 for r in recs if r["k"] == k) for k in ("base", "perm", "group")}
+    rep.assumptions += ["the analyzed declarations are compared as a set (declaration order is free), loc fields ignored",
+                        "Ref (Identifiers): a group's fields belong to the scope of the packet that uses the group"]
+    return rep.finish()
+
+
 CHECKS = {p: (lambda ctx, p=p: check_rust_codec(p, ctx)) for p in CODEC_MODES}
+CHECKS["C08"] = check_c08
+CHECKS["C09"] = check_c09
 CHECKS["C12"] = check_c12
 CHECKS["C11"] = check_c11
 CHECKS["C10"] = check_c10
